@@ -685,11 +685,14 @@ class Fn:
         base = 2 if self.spec.recursive else 1
         self.stmts(base, body)
         if not body or not self.terminal(body[-1]):
-            self.emit(base, f"return {self.name('self')}" if self.spec.returns_self else "return PVal.none")
+            # (C14) a function that mutates its list parameter `out_param` (conditions checked in pytr_c14.py) returns the new list
+            self.emit(base, f"return {self.name('self')}" if self.spec.returns_self else
+                      f"return {self.name(self.spec.out_param)}" if self.spec.out_param else "return PVal.none")
         stmts = self.lines
         self.lines = []
         for p in self.all_params:
-            if p in self.assigned_names(self.node) or ((self.spec.returns_self or self.mutates_self) and p == "self"):
+            if p in self.assigned_names(self.node) or ((self.spec.returns_self or self.mutates_self) and p == "self") \
+                    or p == self.spec.out_param:      # (C14)
                 self.emit(base, f"let mut {lname(p)} := {lname(p)}")
         for v in self.locals:
             self.emit(base, f"let mut {lname(v)} : PVal := PVal.none")
